@@ -605,7 +605,7 @@ theorem C10_locality_covers (hinf : InfLaw R) (f : LineFeature R) (ctx : Ctx R) 
   rw [preTest_setSection_nocull f ctx q k sec' hcull, C10_locality_coversBody hinf f ctx q k sec' cp hcp hk0 hk1]
 
 /-- **C10** … and so is everything the feature writes: `apply` (hit test + all painted values) is unchanged -/
-theorem C10_locality_apply {G : Type} (hinf : InfLaw R) (f : LineFeature R) (ctx : Ctx R) (q : Query R) (k : Nat)
+theorem C10_locality_apply {G : Type} [RandGen G R] (hinf : InfLaw R) (f : LineFeature R) (ctx : Ctx R) (q : Query R) (k : Nat)
     (sec' : List (Segment R)) (cp : ClosestPoint R) (hcull : f.cull = false)
     (hcp : f.bezier.closestPoint ctx.coord.spherical (surfacePoint ctx.coord.spherical q.nat) = .ok (some cp))
     (hk0 : cp.index ≠ k) (hk1 : cp.index + 1 ≠ k) (pes : List (Req × Nat)) (out : List R) :
@@ -955,11 +955,11 @@ theorem ex_closest :
 
 /-- all hypotheses of `C10_locality_coversBody`, `C10_locality_covers`, `C10_locality_apply` hold for `exFeature`, `exCtx`, `exQuery`
 and the override of section 2 (the closest point lies on piece 0, which reads sections 0 and 1): the override changes nothing -/
-example (sec' : List (Segment ℚ)) (pes : List (Req × Nat)) (out : List ℚ) (G : Type) :
-    @LineFeature.apply ℚ (fieldScalar toyTransc) G (LineFeature.setSection exFeature 2 sec') exCtx exQuery pes out =
-    @LineFeature.apply ℚ (fieldScalar toyTransc) G exFeature exCtx exQuery pes out := by
+example (sec' : List (Segment ℚ)) (pes : List (Req × Nat)) (out : List ℚ) (G : Type) (rg : RandGen G ℚ) :
+    @LineFeature.apply ℚ (fieldScalar toyTransc) G rg (LineFeature.setSection exFeature 2 sec') exCtx exQuery pes out =
+    @LineFeature.apply ℚ (fieldScalar toyTransc) G rg exFeature exCtx exQuery pes out := by
   obtain ⟨cp, hcp, hidx⟩ := ex_closest
-  exact @C10_locality_apply ℚ (fieldScalar toyTransc) G (C10_infLaw_field toyTransc) exFeature exCtx exQuery 2 sec' cp rfl hcp
+  exact @C10_locality_apply ℚ (fieldScalar toyTransc) G rg (C10_infLaw_field toyTransc) exFeature exCtx exQuery 2 sec' cp rfl hcp
     (by omega) (by omega) pes out
 
 /-- … and the hypothesis of `C10_locality_no_closest_point` holds for a feature whose curve has no piece at all -/
